@@ -288,7 +288,7 @@ fn c13(tc: &Toolchain, tier: &str, tag: &str, seed: u64, thorough: bool, root: &
     let cov = serde_json::json!({
         "evaluations": progs.len(),
         "distinct_nontrivial": decided,
-        "rule": "generated #![forbid(unsafe_code)] programs: storage (RefLock / Lock / OnceLock) behind 0-5 wrappers (Box, Rc, Arc, Vec, array, Option, Result, struct field, VecDeque, BTreeMap, HashMap) x the way a Write is obtained (Gc::write on the owner, Write::from_mut(&mut &*node).as_deref(), from_static, a fresh unrooted sibling sharing an Rc/Arc, from_mut on a local Rc/Arc clone, no Write at all, field! through a reference) x projection chain x store; plus 13 fixed probes for Cell / RefCell fields, the unsafe accessors, hand-written Unlock, field! through Gc. Oracle: rejected by rustc, or - compiled, linked and run - the child stored into a fully traced object survives two full cycles. Non-trivial = decided either way without generator fault; programs are distinct by (start, wrappers, cell)",
+        "rule": "generated #![forbid(unsafe_code)] programs: storage (RefLock / Lock / OnceLock) behind 0-5 wrappers (Box, Rc, Arc, Vec, array, Option, Result, struct field, VecDeque, BTreeMap, HashMap) x the way a Write is obtained (Gc::write on the owner, Write::from_mut(&mut &*node).as_deref(), from_static, a fresh unrooted sibling sharing an Rc/Arc, from_mut on a local Rc/Arc clone, no Write at all, field! through a reference) x projection chain x store; plus fixed programs (counted below) for Cell / RefCell fields, the unsafe accessors, hand-written Unlock, field! through Gc or through an ambiguous unsizing coercion, dyn_collect! misuse including its internal arms, third-party index types, root replacement, &'static roots, and the known finding's two programs. Oracle: rejected by rustc, or - compiled, linked and run - the child stored into a fully traced object survives two full cycles. Non-trivial = decided either way without generator fault; programs are distinct by (start, wrappers, cell)",
         "samples": samples,
         "exhaustive": false,
         "generated_programs": n_generated,
